@@ -36,6 +36,7 @@ Definition fn_st_cells : Z := 31.
 Definition fn_fit_samples : Z := 32.
 Definition fn_slice_bounds : Z := 33.
 Definition fn_split_args : Z := 34.
+Definition fn_masked_groups : Z := 35.
 
 (* one target result on the wire: [z sigma] or a failure code z1 (no points) z2 (singular) z3 (ill) *)
 Definition getResult (v : val) : option target_result :=
@@ -113,6 +114,8 @@ Definition run_fn (f : Z) (a : list val) : option val :=
             Some (ofList (fun s => VL [VQ (fst (fst s)); VQ (snd (fst s)); VQ (snd s)]) (fit_samples xb tb z))
   | 33%Z => do sz <- getList getN (arg a 0); Some (ofList (ofPair ofN ofN) (slice_bounds sz))
   | 34%Z => do sz <- getList getN (arg a 0); do x <- getList getQ (arg a 1); Some (ofList (ofList ofQ) (split_args sz x))
+  | 35%Z => do e <- getList getQ (arg a 0); do D <- getList getQ (arg a 1); do m <- getList getB (arg a 2);
+            Some (ofList (ofOpt ofN) (masked_groups e D m))
   | _ => None
   end.
 
